@@ -62,6 +62,13 @@ def ring_programs(tier):
         Un("neg", Bin("-", r2, Bin("*", q, Const(BIG)))), Bin("*", Bin("*", r2, s3), q),
         Bin("+", Bin("*", i, Const(-3)), b), Bin("-", Bin("&", r2, s3), Bin("|", q, Const(1))),
     ]
+    # the destination register also occurs as an operand (aliasing)
+    for d in (Reg("r", 2), Reg("sr", 3)):
+        o = s3 if d.no == 2 else r2
+        for e in (Bin("+", o, Bin("*", Loc("Q"), d)), Bin("-", o, Bin("<<", d, Const(2))),
+                  Bin("+", d, d), Bin("+", q, Bin("^", d, o)), Bin("*", Bin("+", d, Const(1)), Bin("-", d, o)),
+                  Bin("+", o, d), Bin("-", Const(7), d), Un("neg", d)):
+            out.append((e, d))
     for d in dests(tier):
         for e in shapes:
             if e.label() == "((r2 * sr3) * v_q)" and d.size < 8:
